@@ -10,7 +10,7 @@
 (* line's action from a quiescent state that matches the previous line's   *)
 (* snapshot; Silent is any internal step of the specification.             *)
 (***************************************************************************)
-EXTENDS EioServer, Json, IOUtils, TLCExt
+EXTENDS EioServerProps, Json, IOUtils, TLCExt
 
 Tr == JsonDeserialize(IOEnv.TRACE_FILE)
 
@@ -25,20 +25,7 @@ Match(st) ==
     /\ g.deliv = st.deliv
     /\ g.out = st.out
 
-EnvStep(e) ==
-    CASE e.ev = "open"    -> OpenPolling(e.a.outcome, e.a.hsend)
-      [] e.ev = "openws"  -> OpenWs(e.a.outcome, e.a.hsend)
-      [] e.ev = "poll"    -> PollReq(e.a.s)
-      [] e.ev = "post"    -> PostReq(e.a.s, e.a.body)
-      [] e.ev = "upgrade" -> UpgradeReq(e.a.s)
-      [] e.ev = "wsframe" -> WsFrame(e.a.s, e.a.f)
-      [] e.ev = "wsdrop"  -> WsDrop(e.a.s)
-      [] e.ev = "send"    -> AppSend(e.a.s)
-      [] e.ev = "disconnect" -> AppDisconnect(e.a.s)
-      [] e.ev = "save"    -> AppSaveSession(e.a.s, e.a.tok)
-      [] e.ev = "get"     -> AppGetSession(e.a.s)
-      [] e.ev = "tick"    -> TickTo(e.a.t)
-      [] OTHER            -> FALSE
+EnvStep(e) == Do([op |-> e.ev] @@ e.a)
 
 TraceInit ==
     /\ Init
